@@ -778,7 +778,14 @@ enum BoundKind {
     Activity,
 }
 
-fn bound_kind_of(variable: &str, clauses: &[WhereClause]) -> Option<BoundKind> {
+/// Every Core kind a typed pattern of the WHERE block names for `variable`.
+///
+/// All of them count, not the first one in document order: a UNION branch adds
+/// solutions, so `{ ?t {type: "T"} UNION { ?t ASSERTION {} } }` can hand the
+/// UPDATE an Assertion at run time, and a pattern inside a NOT block written
+/// ahead of the real binding must not mask it. The guards refuse the statement
+/// when any of these kinds forbids the write.
+fn bound_kinds_of(variable: &str, clauses: &[WhereClause], out: &mut Vec<BoundKind>) {
     for clause in clauses {
         let found = match clause {
             WhereClause::Assertion { variable: v, .. } if v == variable => {
@@ -791,15 +798,17 @@ fn bound_kind_of(variable: &str, clauses: &[WhereClause]) -> Option<BoundKind> {
                 variable: Some(v), ..
             } if v == variable => Some(BoundKind::Proposition),
             WhereClause::Not(inner) | WhereClause::Optional(inner) | WhereClause::Union(inner) => {
-                bound_kind_of(variable, inner)
+                bound_kinds_of(variable, inner, out);
+                None
             }
             _ => None,
         };
-        if found.is_some() {
-            return found;
+        if let Some(kind) = found
+            && !out.contains(&kind)
+        {
+            out.push(kind);
         }
     }
-    None
 }
 
 /// Rejects the UPDATEs an engine must never be asked to perform.
@@ -808,20 +817,24 @@ fn guard_update(statement: &UpdateStatement) -> Result<(), &'static str> {
         ElementRef::Handle(name) => Some(name.as_str()),
         _ => None,
     };
-    let kind = match (target_var, &statement.where_clauses) {
-        (Some(var), Some(clauses)) => bound_kind_of(var, clauses),
-        _ => None,
-    };
+    let mut kinds: Vec<BoundKind> = Vec::new();
+    if let (Some(var), Some(clauses)) = (target_var, &statement.where_clauses) {
+        bound_kinds_of(var, clauses, &mut kinds);
+    }
 
     for action in &statement.actions {
         match action {
             UpdateAction::SetFields(assignments) => {
                 for (field, _) in assignments {
-                    guard_immutable_field(field, kind)?;
+                    for kind in &kinds {
+                        guard_immutable_field(field, Some(*kind))?;
+                    }
                 }
             }
             UpdateAction::SetStructural(_) | UpdateAction::UnsetStructural(_) => {
-                guard_structural_mutation(kind)?
+                for kind in &kinds {
+                    guard_structural_mutation(Some(*kind))?;
+                }
             }
             _ => {}
         }
